@@ -8,7 +8,9 @@ import sys
 src, name, prop, needs, caught_by, suite = sys.argv[1:7]
 extra = sys.argv[7] if len(sys.argv) > 7 else ""
 dst = os.path.join("/verif/seeded", name)
-os.makedirs(dst, exist_ok=True)
+if os.path.exists(dst):
+    sys.exit(f"refusing to overwrite {dst}")
+os.makedirs(dst)
 for f in ("patch.diff", "demo.py", "notes.md"):
     if os.path.exists(os.path.join(src, f)):
         shutil.copy(os.path.join(src, f), os.path.join(dst, f))
